@@ -21,12 +21,16 @@ package trust
 //@   modifies nothing
 //@   ensures result1 == nil && id.Base == scrypto.LatestVer && id.Serial == scrypto.LatestVer && !cppki.zeroSigned(result0) ==> result0.TRC.ID.ISD == id.ISD && cppki.trcKey(result0.TRC) == stKey && uint64(result0.TRC.ID.Serial) == stSerial && uint64(result0.TRC.ID.Base) == stBase && result0.TRC.Quorum >= 1
 
+//@ # two writers: the notification path (a verified successor of the latest TRC) and the start-up loader, which takes
+//@ # the operator's TRC files as they are but never one that is not valid yet. fromDisk tells which of the two runs.
+//@ ghost var fromDisk bool
 //@ iface DB.InsertTRC
-//@   requires cppki.okKey == cppki.trcKey(trc.TRC) && cppki.okPred == stKey
-//@   requires uint64(trc.TRC.ID.Serial) == stSerial + 1 && uint64(trc.TRC.ID.Base) == stBase
+//@   requires !fromDisk ==> cppki.okKey == cppki.trcKey(trc.TRC) && cppki.okPred == stKey
+//@   requires !fromDisk ==> uint64(trc.TRC.ID.Serial) == stSerial + 1 && uint64(trc.TRC.ID.Base) == stBase
+//@   requires fromDisk ==> trc.TRC.Validity.NotBefore.ext <= time.lastNow
 //@   modifies stKey, stSerial, insCount
-//@   ensures result1 == nil ==> stKey == cppki.trcKey(trc.TRC) && stSerial == old(stSerial) + 1 && insCount == old(insCount) + 1
-//@   ensures result1 != nil ==> stKey == old(stKey) && stSerial == old(stSerial) && insCount == old(insCount)
+//@   ensures !fromDisk && result1 == nil ==> stKey == cppki.trcKey(trc.TRC) && stSerial == old(stSerial) + 1 && insCount == old(insCount) + 1
+//@   ensures !fromDisk && result1 != nil ==> stKey == old(stKey) && stSerial == old(stSerial) && insCount == old(insCount)
 
 //@ # a fetched TRC is a decoded one: no nil certificate pointers
 //@ iface Fetcher.TRC
@@ -50,7 +54,7 @@ package trust
 
 //@ func (FetchingProvider).NotifyTRC
 //@   props C35
-//@   requires p.DB != nil && p.Recurser != nil && p.Router != nil && p.Fetcher != nil
+//@   requires !fromDisk && p.DB != nil && p.Recurser != nil && p.Router != nil && p.Fetcher != nil
 //@   requires stSerial < 0xffffffffffffff00 && uint64(id.Serial) < 0xffffffffffffff00 && insCount >= 0 && insCount < 0x7fffffff00000000
 //@   let s0 = stSerial
 //@   let c0 = insCount
@@ -167,3 +171,21 @@ package trust
 //@   props C36
 //@   modifies nothing
 //@   ensures result.NotBefore == s.ChainValidity.NotBefore && result.NotAfter == s.Expiration
+
+//@ # ---- C35: loading TRC files at start-up never inserts a TRC whose validity has not begun (files, PEM and the
+//@ # decoding of the TRC are not interpreted)
+//@ extern github.com/scionproto/scion/pkg/scrypto/cppki.DecodeSignedTRC
+//@   modifies nothing
+//@ extern os.Stat
+//@   modifies nothing
+//@ extern os.ReadFile
+//@   modifies nothing
+//@ extern path/filepath.Glob
+//@   modifies nothing
+//@ extern encoding/pem.Decode
+//@   modifies nothing
+//@ func loadTRCs
+//@   props C35
+//@   nosafety
+//@   requires fromDisk && db != nil
+//@   loop 1 havoc
